@@ -82,6 +82,8 @@ def shard_fn(shard, nshards, seed, tier, exe, ninputs, npairs):
         fy = ""
         if rng.random() < 0.3:
             fy = " %d" % rng.choice([0, 1, 2, 3, 0x10, 0x11, 0x13])   # the flags are changed between the two documents
+            if rng.random() < 0.5:
+                fy += " b"   # ... before the reset rather than after it
             sh.count("reset_pairs.flags_changed_between_documents")
         add("reset", ["R %d %d x%s x%s%s" % (flags, depth, ",".join(c.hex() for c in chunks), y.hex(), fy)], (chunks, y))
     # a tokener that has held a very long token (its scratch buffer grew beyond 64 KiB) and is then reused for another document with a long token
